@@ -24,14 +24,19 @@ def appX : Act := .mk (S "app") [.text (S "x")]
 def getL : Act := .mk (S "getvar") [.text (S "lst")]
 def extZ : Act := .mk (S "ext") [.link [mkZ]]
 def vol : Act := .mk (S "vol") []
+/-- `cvapp-lst-x`: append to the context's variable `lst` (the object of the predecessor state) -/
+def cvX : Act := .mk (S "cvapp") [.text (S "lst"), .text (S "x")]
+def pairZ : Act := .mk (S "pair") [.link [mkZ]]
 
 def qAB : List Act := [mkA, appB]
 def qABC : List Act := [mkA, appB, appC]
 def qAGX : List Act := [mkA, getL, appX]
 def qAE : List Act := [mkA, extZ]
+def qCG : List Act := [cvX, getL]
+def qAP : List Act := [mkA, pairZ]
 
 /-- the chains the example history evaluates, with their predecessors and link arguments -/
-def chains : List (List Act) := [[mkA], qAB, qABC, [mkA, getL], qAGX, [mkZ], qAE]
+def chains : List (List Act) := [[mkA], qAB, qABC, [mkA, getL], qAGX, [mkZ], qAE, [cvX], qCG, qAP]
 
 def P0 (acts : List Act) : Prop := acts ∈ chains
 
@@ -58,22 +63,22 @@ theorem abs_dd : absVars h0 dd = d0 := rfl
 theorem closed0 : Closed P0 := by
   refine ⟨fun acts hP he => ?_, fun acts act q hP hl hq => ?_⟩
   · simp only [P0, chains, List.mem_cons, List.not_mem_nil, or_false] at hP
-    rcases hP with rfl | rfl | rfl | rfl | rfl | rfl | rfl <;>
+    rcases hP with rfl | rfl | rfl | rfl | rfl | rfl | rfl | rfl | rfl | rfl <;>
       first
         | (exfalso; revert he; decide)
-        | simp [P0, chains, qAB, qABC, qAGX, qAE]
+        | simp [P0, chains, qAB, qABC, qAGX, qAE, qCG, qAP]
   · simp only [P0, chains, List.mem_cons, List.not_mem_nil, or_false] at hP
-    rcases hP with rfl | rfl | rfl | rfl | rfl | rfl | rfl <;>
-      (simp only [qAB, qABC, qAGX, qAE, List.getLast?_cons_cons, List.getLast?_singleton, Option.some.injEq] at hl
+    rcases hP with rfl | rfl | rfl | rfl | rfl | rfl | rfl | rfl | rfl | rfl <;>
+      (simp only [qAB, qABC, qAGX, qAE, qCG, qAP, List.getLast?_cons_cons, List.getLast?_singleton, Option.some.injEq] at hl
        subst hl
-       simp [Act.args, mkA, mkZ, appB, appC, appX, getL, extZ] at hq) <;>
+       simp [Act.args, mkA, mkZ, appB, appC, appX, getL, extZ, cvX, pairZ] at hq) <;>
       (subst hq; simp [P0, chains, mkZ])
 
 theorem keys_inj0 : ∀ a b acts acts', P0 acts → P0 acts' → keyOf a acts = keyOf b acts' → acts = acts' := by
   intro a b acts acts' h1 h2 hk
   simp only [P0, chains, List.mem_cons, List.not_mem_nil, or_false] at h1 h2
-  rcases h1 with rfl | rfl | rfl | rfl | rfl | rfl | rfl <;>
-    rcases h2 with rfl | rfl | rfl | rfl | rfl | rfl | rfl <;>
+  rcases h1 with rfl | rfl | rfl | rfl | rfl | rfl | rfl | rfl | rfl | rfl <;>
+    rcases h2 with rfl | rfl | rfl | rfl | rfl | rfl | rfl | rfl | rfl | rfl <;>
       first
         | rfl
         | (exfalso; revert hk; cases a <;> cases b <;> decide)
@@ -83,8 +88,8 @@ theorem keyOK0 : KeyOK d0 P0 := keyOK_of_injective keys_inj0
 theorem safe0 : Safe d0 P0 := by
   refine safe_of_syntactic (fun acts act hP hl hn b hb => ?_)
   simp only [P0, chains, List.mem_cons, List.not_mem_nil, or_false] at hP
-  rcases hP with rfl | rfl | rfl | rfl | rfl | rfl | rfl <;>
-    (simp only [qAB, qABC, qAGX, qAE, List.dropLast, List.mem_cons, List.not_mem_nil, or_false] at hb
+  rcases hP with rfl | rfl | rfl | rfl | rfl | rfl | rfl | rfl | rfl | rfl <;>
+    (simp only [qAB, qABC, qAGX, qAE, qCG, qAP, List.dropLast, List.mem_cons, List.not_mem_nil, or_false] at hb
      try (rcases hb with rfl | rfl)
      all_goals (first | (subst hb; decide) | decide | (exact absurd hb (by simp))))
 
